@@ -112,6 +112,9 @@ proofs/Spec_spatial2.vos proofs/Spec_spatial2.vok proofs/Spec_spatial2.required_
 props/C01.vo props/C01.glob props/C01.v.beautified props/C01.required_vo: props/C01.v lib/Lib.vo lib/RLib.vo lib/Spec.vo gen/Compute.vo gen/Tables.vo proofs/Spec_planar.vo proofs/Spec_spatial1.vo proofs/Spec_spatial2.vo proofs/Spec_lorentz.vo
 props/C01.vio: props/C01.v lib/Lib.vio lib/RLib.vio lib/Spec.vio gen/Compute.vio gen/Tables.vio proofs/Spec_planar.vio proofs/Spec_spatial1.vio proofs/Spec_spatial2.vio proofs/Spec_lorentz.vio
 props/C01.vos props/C01.vok props/C01.required_vos: props/C01.v lib/Lib.vos lib/RLib.vos lib/Spec.vos gen/Compute.vos gen/Tables.vos proofs/Spec_planar.vos proofs/Spec_spatial1.vos proofs/Spec_spatial2.vos proofs/Spec_lorentz.vos
+props/C03.vo props/C03.glob props/C03.v.beautified props/C03.required_vo: props/C03.v model/Layout.vo
+props/C03.vio: props/C03.v model/Layout.vio
+props/C03.vos props/C03.vok props/C03.required_vos: props/C03.v model/Layout.vos
 props/C04.vo props/C04.glob props/C04.v.beautified props/C04.required_vo: props/C04.v lib/Lib.vo lib/RLib.vo lib/Spec.vo gen/Compute.vo gen/Tables.vo model/ObjModel.vo gen/ObjNames.vo gen/ObjApi.vo model/ObjChecks.vo proofs/C04_conv.vo
 props/C04.vio: props/C04.v lib/Lib.vio lib/RLib.vio lib/Spec.vio gen/Compute.vio gen/Tables.vio model/ObjModel.vio gen/ObjNames.vio gen/ObjApi.vio model/ObjChecks.vio proofs/C04_conv.vio
 props/C04.vos props/C04.vok props/C04.required_vos: props/C04.v lib/Lib.vos lib/RLib.vos lib/Spec.vos gen/Compute.vos gen/Tables.vos model/ObjModel.vos gen/ObjNames.vos gen/ObjApi.vos model/ObjChecks.vos proofs/C04_conv.vos
@@ -142,6 +145,9 @@ props/C14.vos props/C14.vok props/C14.required_vos: props/C14.v model/ObjModel.v
 props/C15.vo props/C15.glob props/C15.v.beautified props/C15.required_vo: props/C15.v model/ObjModel.vo gen/ObjNames.vo gen/ObjApi.vo gen/ObjApiBin.vo model/ObjChecks.vo model/ObjChecksBin.vo model/ObjHistory.vo
 props/C15.vio: props/C15.v model/ObjModel.vio gen/ObjNames.vio gen/ObjApi.vio gen/ObjApiBin.vio model/ObjChecks.vio model/ObjChecksBin.vio model/ObjHistory.vio
 props/C15.vos props/C15.vok props/C15.required_vos: props/C15.v model/ObjModel.vos gen/ObjNames.vos gen/ObjApi.vos gen/ObjApiBin.vos model/ObjChecks.vos model/ObjChecksBin.vos model/ObjHistory.vos
+props/C16.vo props/C16.glob props/C16.v.beautified props/C16.required_vo: props/C16.v 
+props/C16.vio: props/C16.v 
+props/C16.vos props/C16.vok props/C16.required_vos: props/C16.v 
 props/C17.vo props/C17.glob props/C17.v.beautified props/C17.required_vo: props/C17.v lib/Lib.vo lib/RLib.vo lib/Spec.vo gen/Compute.vo gen/Tables.vo proofs/Spec_lorentz.vo model/Layout.vo proofs/C17_reduce.vo
 props/C17.vio: props/C17.v lib/Lib.vio lib/RLib.vio lib/Spec.vio gen/Compute.vio gen/Tables.vio proofs/Spec_lorentz.vio model/Layout.vio proofs/C17_reduce.vio
 props/C17.vos props/C17.vok props/C17.required_vos: props/C17.v lib/Lib.vos lib/RLib.vos lib/Spec.vos gen/Compute.vos gen/Tables.vos proofs/Spec_lorentz.vos model/Layout.vos proofs/C17_reduce.vos
